@@ -399,6 +399,9 @@ func (filter *TrzszFilter) createProgressBar(quiet bool, tmuxPaneColumns int32) 
 	if color := filter.progressColorPair.Load(); color != nil {
 		colorPair = *color
 	}
+	if tmuxPaneColumns > filter.options.TerminalColumns {
+		tmuxPaneColumns = 0 // a pane can't be wider than the terminal showing it, ignore what the server claims
+	}
 	filter.progress.Store(newTextProgressBar(filter.clientOut, filter.options.TerminalColumns,
 		tmuxPaneColumns, filter.trigger.tmuxPrefix, colorPair))
 }
